@@ -34,6 +34,7 @@ type Prog struct {
 	infoCache    map[*ssa.Function]*FuncInfo
 	helpers      map[*ssa.Function]helperLink
 	byName       map[string]*ssa.Function
+	exitCache    map[*ssa.Function]map[Fact]bool
 	factCache    map[*ssa.Function]map[*ssa.BasicBlock]map[Fact]bool
 }
 
